@@ -1449,3 +1449,14 @@ def m_argmax_list(ex, st, args, kwargs, node):
             best = z3.If(x > best, x, best)
         return pos
     raise Unsupported('np.argmax pattern')
+
+
+@model('np.sign')
+def m_sign(ex, st, args, kwargs, node):
+    v = st.deref(args[0])
+    if isinstance(v, VArr):
+        return VArr(v.shape, None, None, v.dtype)
+    v = Z(ex.need_num(st, v, node))
+    used('np.sign(x) -> 1 / 0 / -1')
+    return z3.If(v > 0, z3.RealVal(1), z3.If(v < 0, z3.RealVal(-1), z3.RealVal(0))) if v.sort() == z3.RealSort() \
+        else z3.If(v > 0, 1, z3.If(v < 0, -1, 0))
